@@ -222,6 +222,24 @@ class StatUniverse(eng_gen.Universe):
                     self.maybe(at, a, 0.6, F(0, 3, 8, '4.5'))
                 self.maybe(at, A.dmg_mult, 0.8, F(1, 2, '1.5'))
                 self.maybe(at, DUR_WEAPON, 0.95, F(1000, 2000, 4000, 500))
+            if r.random() < 0.25:
+                # any effect may sit on any type: a drone whose default effect is one of the weapon / repair
+                # effects that modules usually carry (charge-driven cycle counts included)
+                role = r.choice(['projectile', 'missile', 'fueled_shield', 'remote_shield_anc', 'armor_rep',
+                                 'shield_rep', 'smartbomb', 'chain', 'disintegrator', 'remote_armor'])
+                eid, _, dur = ROLES[role]
+                eid = int(eid)
+                if eid not in ty['effects']:
+                    ty['effects'].append(eid)
+                if int(E.target_attack) in ty['effects']:
+                    ty['effects'].remove(int(E.target_attack))
+                ty['default'] = eid
+                self.maybe(at, dur, 0.95, F(1000, 2000, 4000, 500))
+                for a in DMG:
+                    self.maybe(at, a, 0.5, F(0, 3, 8, '4.5'))
+                self.maybe(at, A.armor_dmg_amount, 0.7, F(10, 25, 100))
+                self.maybe(at, A.shield_bonus, 0.7, F(10, 25, 100))
+                self.maybe(at, A.charge_rate, 0.4, F(1, 2))
             if r.random() < 0.3:
                 ty['skills'][int(TypeId.sentry_drone_interfacing)] = 1
         for t in self.misc_types['rig']:
